@@ -448,6 +448,217 @@ example : (match forType celsiusOpts 3 (.ptr (.named "Celsius" (.basic "Float64"
     | .ok (some id, st') => [Spec.valid (specEnvNoRefs st') 1 id .null, Spec.valid (specEnvNoRefs st') 1 id (.num 20)]
     | _ => []) = [some true, some false] := by decide
 
+/-! ### the hypotheses of `infer_sound_table` are satisfiable, and needed (labelled tests) -/
+
+/-- the store of the caller: `TypeSchemas[Point]` is node 2,
+    `{"type":"object","properties":{"lat":{"type":"number"},"lon":{"type":"number"}},"required":["lat","lon"]}` -/
+def geoStore : Store := #[
+  { type := "number" },
+  { type := "number" },
+  { type := "object", properties := some [("lat", 0), ("lon", 1)], required := some ["lat", "lon"] }]
+
+/-- the root of the entry, and of its clones -/
+def geoNode (a b : NodeId) : Node :=
+  { type := "object", properties := some [("lat", a), ("lon", b)], required := some ["lat", "lon"] }
+
+/-- `CloneSchemas` of the entry, in any store that holds it -/
+theorem clone_geo {S : Store} (h0 : S.get? 0 = some { type := "number" }) (h1 : S.get? 1 = some { type := "number" })
+    (h2 : S.get? 2 = some (geoNode 0 1)) :
+    clone S 2 = .ok (S.size + 2, ((S.push { type := "number" }).push { type := "number" }).push (geoNode S.size (S.size + 1))) := by
+  have h1' : Store.get? (S.push { type := "number" }) 1 = some { type := "number" } := (Ext.push S _).get? h1
+  have e0 : cloneFuel (S.size + 1) 0 S = .ok (S.size, S.push { type := "number" }) :=
+    cloneStep_leaf h0 (leafSchema_typeOnly "number")
+  have e1 : cloneFuel (S.size + 1) 1 (S.push { type := "number" }) =
+      .ok ((S.push { type := "number" }).size, (S.push { type := "number" }).push { type := "number" }) :=
+    cloneStep_leaf h1' (leafSchema_typeOnly "number")
+  show cloneStep (cloneFuel (S.size + 1)) 2 S = _
+  unfold cloneStep
+  rw [h2]
+  simp only [geoNode, cloneMap, cloneEntries, cloneOpt, cloneList, e0, e1, Res.bind_ok, Store.alloc, Array.size_push]
+
+/-- `ForOptions{TypeSchemas: {Point: …}}` -/
+def geoOpts : IOpts := { schemas := [("Point", 2)] }
+/-- `type Point struct { Lat float64 "json:\"lat\""; Lon float64 "json:\"lon\"" }` — e.g. with a `MarshalJSON` of its own
+    that writes `{"lat":…,"lon":…}` — and
+    `type Trip struct { At Point "json:\"at\""; Track []Point "json:\"track\""; Home *Point "json:\"home\"" }` -/
+def geoU (tLat tLon : String) : GoType := .struct [("Lat", tLat, .basic "Float64"), ("Lon", tLon, .basic "Float64")]
+def geoT (tLat tLon : String) : GoType := .named "Point" (geoU tLat tLon)
+def tripT (tA tT tH tLat tLon : String) : GoType :=
+  .struct [("At", tA, geoT tLat tLon), ("Track", tT, .slice (geoT tLat tLon)), ("Home", tH, .ptr (geoT tLat tLon))]
+
+/-- `forType` on `Point` / `*Point`: the clone of the entry, `null` added for the pointer -/
+theorem inferFuel_geo (tLat tLon : String) (f : Nat) {T : GoType} {an : Bool} (hs : stripPtrs T = (geoT tLat tLon, an))
+    {seen : List String} (hseen : seen.contains "Point" = false) {S : Store} (hS : Ext geoStore S) :
+    ∃ fid S', inferFuel geoOpts (f + 1) T seen S = .ok (some fid, S') ∧ Ext geoStore S' := by
+  have h0 : S.get? 0 = some { type := "number" } := hS.get? (i := 0) rfl
+  have h1 : S.get? 1 = some { type := "number" } := hS.get? (i := 1) rfl
+  have h2 : S.get? 2 = some (geoNode 0 1) := hS.get? (i := 2) rfl
+  refine ⟨S.size + 2, ((S.push { type := "number" }).push { type := "number" }).push
+    (tableNull an (geoNode S.size (S.size + 1))), ?_,
+    hS.trans ((Ext.push _ _).trans ((Ext.push _ _).trans (Ext.push _ _)))⟩
+  show inferStep geoOpts (inferFuel geoOpts f) T seen S = _
+  rw [inferStep_table (t := geoT tLat tLon) hs rfl hseen rfl, clone_geo h0 h1 h2, Res.bind_ok]
+  have hsz : ((S.push { type := "number" }).push { type := "number" }).size = S.size + 2 := by
+    simp only [Array.size_push]
+  have hg := get?_push_size ((S.push { type := "number" }).push { type := "number" }) (geoNode S.size (S.size + 1))
+  have hset := set!_push_size ((S.push { type := "number" }).push { type := "number" }) (geoNode S.size (S.size + 1))
+      (tableNull an (geoNode S.size (S.size + 1)))
+  rw [hsz] at hg hset
+  simp only [hg]
+  rw [show (geoOpts.nullForSlices && an) = an from rfl, hset]
+
+/-- … on `[]Point` -/
+theorem inferFuel_geo_slice (tLat tLon : String) (f : Nat) {S : Store} (hS : Ext geoStore S) :
+    ∃ fid S', inferFuel geoOpts (f + 2) (.slice (geoT tLat tLon)) [] S = .ok (some fid, S') ∧ Ext geoStore S' := by
+  obtain ⟨fid, S', h, hS'⟩ := inferFuel_geo tLat tLon f (T := geoT tLat tLon) rfl (seen := []) rfl hS
+  refine ⟨S'.size, S'.push (addNull false (sliceNode geoOpts.nullForSlices fid)), ?_, hS'.trans (Ext.push _ _)⟩
+  show inferStep geoOpts (inferFuel geoOpts (f + 1)) (.slice (geoT tLat tLon)) [] S = _
+  rw [inferStep_slice rfl, h, Res.bind_ok]
+
+def geoRoot : Node := geoNode 0 1
+
+theorem plain_geoRoot (b : Bool) : Plain (tableNull b geoRoot) := by
+  cases b <;> exact ⟨rfl, rfl, rfl, rfl, rfl, rfl, rfl, rfl, rfl, rfl, rfl⟩
+
+theorem number_leaf_valid {st : Store} {re : String → String → Bool} {id : NodeId} (h : st.get? id = some { type := "number" })
+    (f : Nat) (sc : List NodeId) (q : Rat) : Valid (evalFuel (specEnvNoRefs st re) (f + 1) sc id (.num q)) := by
+  refine (leaf_valid_iff (HasNode.of_get h) (leafSchema_typeOnly "number") f sc _).2 ?_
+  by_cases hq : q.den = 1 <;>
+    simp [asserts, typeOk, typeMatches, Json.typeName, hq, enumOk, constOk, numericOk, stringOk, arrayLimitsOk, objectLimitsOk]
+
+theorem float64_value {v : GoValue} (h : basicHasType "Float64" v) : ∃ q, v = .float q := by
+  cases v with
+  | float q => exact ⟨q, rfl⟩
+  | int i => obtain ⟨lo, hi, hr, _⟩ := h; simp [intRange] at hr
+  | _ => simp [basicHasType] at h
+
+/-- **the entry accepts the encodings of `Point`**, by value and through a pointer: `EntryAcceptsTree` holds -/
+theorem geo_entryAcceptsTree (tLat tLon : String) (hLat : fieldJSONInfo "Lat" tLat = { name := "lat" })
+    (hLon : fieldJSONInfo "Lon" tLon = { name := "lon" }) (an : Bool) :
+    EntryAcceptsTree geoStore 2 (geoU tLat tLon) an := by
+  refine ⟨geoRoot, 2, rfl, by decide, fun re v hv => ?_, fun _ => ⟨Or.inl (by decide), fun re => ?_⟩⟩
+  · obtain ⟨q1, q2, rfl⟩ : ∃ q1 q2, v = .struct [.float q1, .float q2] := by
+      cases v with
+      | struct vs =>
+        simp only [geoU, HasType, HasTypeFields, hLat, hLon] at hv
+        rcases vs with _ | ⟨a, _ | ⟨b, vs⟩⟩
+        · exact hv.elim
+        · exact hv.2.elim
+        · simp only [Bool.false_eq_true, false_or] at hv
+          obtain ⟨q1, rfl⟩ := float64_value hv.1
+          obtain ⟨q2, rfl⟩ := float64_value hv.2.1
+          rw [hv.2.2]
+          exact ⟨q1, q2, rfl⟩
+      | _ => simp [geoU, HasType] at hv
+    have henc : encode (geoU tLat tLon) (.struct [.float q1, .float q2]) = .obj [("lat", .num q1), ("lon", .num q2)] := by
+      simp [geoU, encode, encodeFields, hLat, hLon, fieldSkipped]
+    rw [henc]
+    refine valid_iff_isSome.1 ((evalFuel_frag (HasNode.of_get (m := geoRoot) rfl) (plain_geoRoot false) _ [] _).2
+      ⟨⟨_, kwNot_none rfl _⟩, kwItems_none rfl rfl rfl _, ?_, ?_⟩)
+    · refine kwProps_obj_valid rfl fun p hp => ⟨fun t ht => ?_, fun hl t ht => ?_⟩
+      · simp only [List.mem_cons, List.not_mem_nil, or_false] at hp
+        rcases hp with rfl | rfl
+        · obtain rfl : t = 0 := by simpa [geoRoot, geoNode, Json.lookup] using ht.symm
+          exact number_leaf_valid rfl _ _ q1
+        · obtain rfl : t = 1 := by simpa [geoRoot, geoNode, Json.lookup] using ht.symm
+          exact number_leaf_valid rfl _ _ q2
+      · cases ht
+    · simp [asserts, typeOk, geoRoot, geoNode, typeMatches, Json.typeName, enumOk, constOk, numericOk, stringOk, arrayLimitsOk,
+        objectLimitsOk, specEnvNoRefs, Json.lookup]
+  · refine valid_iff_isSome.1 ((evalFuel_frag (st := geoStore.push (tableNull true geoRoot)) (HasNode.of_get (m := tableNull true geoRoot) rfl)
+      (plain_geoRoot true) _ [] _).2 ⟨⟨_, kwNot_none rfl _⟩, kwItems_none rfl rfl rfl _, ⟨_, kwProps_nonobj rfl⟩, ?_⟩)
+    simp [asserts, typeOk, geoRoot, geoNode, tableNull, typeMatches, Json.typeName, enumOk, constOk, numericOk, stringOk, arrayLimitsOk,
+        objectLimitsOk]
+
+/-- `ForType` succeeds on `Trip` (computed: three clones of the entry): `h` of `infer_sound_table` is satisfiable -/
+theorem trip_infers (tA tT tH tLat tLon : String)
+    (hA : fieldJSONInfo "At" tA = { name := "at" }) (hT : fieldJSONInfo "Track" tT = { name := "track" })
+    (hH : fieldJSONInfo "Home" tH = { name := "home" })
+    (dA : tagLookup "jsonschema" tA = none) (dT : tagLookup "jsonschema" tT = none)
+    (dH : tagLookup "jsonschema" tH = none) :
+    ∃ id st', forType geoOpts 3 (tripT tA tT tH tLat tLon) geoStore = .ok (some id, st') := by
+  show ∃ id st', inferStep geoOpts (inferFuel geoOpts 2) (tripT tA tT tH tLat tLon) [] geoStore = _
+  rw [inferStep_struct (fields := [("At", tA, geoT tLat tLon), ("Track", tT, .slice (geoT tLat tLon)), ("Home", tH, .ptr (geoT tLat tLon))]) (an := false) rfl]
+  obtain ⟨f1, S2, e1, i2⟩ := inferFuel_geo tLat tLon 1 (T := geoT tLat tLon) rfl (seen := []) rfl
+    (S := (geoStore.push emptyNode).push (falseNode geoStore.size)) ((Ext.push _ _).trans (Ext.push _ _))
+  rw [structLoop_step (by rw [hA]) dA e1]
+  obtain ⟨f2, S3, e2, i3⟩ := inferFuel_geo_slice tLat tLon 0 i2
+  rw [structLoop_step (by rw [hT]) dT e2]
+  obtain ⟨f3, S4, e3, i4⟩ := inferFuel_geo tLat tLon 1 (T := .ptr (geoT tLat tLon)) rfl (seen := []) rfl i3
+  rw [structLoop_step (by rw [hH]) dH e3]
+  simp only [structLoop, Res.bind_ok]
+  exact ⟨_, _, rfl⟩
+
+/-- the three uses of `Point` in `Trip`: by value, in a slice, through a pointer -/
+theorem trip_entriesAcceptTree (tA tT tH tLat tLon : String) (hLat : fieldJSONInfo "Lat" tLat = { name := "lat" })
+    (hLon : fieldJSONInfo "Lon" tLon = { name := "lon" }) :
+    EntriesAcceptTree geoOpts geoStore false (tripT tA tT tH tLat tLon) := by
+  simp only [tripT, geoT, EntriesAcceptTree, EntriesAcceptTreeFields, geoOpts, Json.lookup]
+  exact ⟨Or.inr (geo_entryAcceptsTree tLat tLon hLat hLon false), Or.inr (geo_entryAcceptsTree tLat tLon hLat hLon false),
+    Or.inr (geo_entryAcceptsTree tLat tLon hLat hLon true), trivial⟩
+
+section WitnessesT
+variable (tA tT tH tLat tLon : String)
+  (hA : fieldJSONInfo "At" tA = { name := "at" }) (hT : fieldJSONInfo "Track" tT = { name := "track" })
+  (hH : fieldJSONInfo "Home" tH = { name := "home" })
+  (hLat : fieldJSONInfo "Lat" tLat = { name := "lat" }) (hLon : fieldJSONInfo "Lon" tLon = { name := "lon" })
+include hA hT hH hLat hLon
+
+theorem trip_inDomainN : InDomainN (tripT tA tT tH tLat tLon) = true := by
+  have v1 : validTagName "at" = true := by decide
+  have v2 : validTagName "track" = true := by decide
+  have v3 : validTagName "home" = true := by decide
+  have v4 : validTagName "lat" = true := by decide
+  have v5 : validTagName "lon" = true := by decide
+  have d1 : "Float64" ∈ domainKinds := by decide
+  simp [tripT, geoT, geoU, InDomainN, inDomainFieldsN, jsonNames, nodup, fieldTagOk, hA, hT, hH, hLat, hLon, v1, v2, v3, v4,
+    v5, d1]
+
+/-- the value `Trip{At: Point{1.5, 2}, Track: []Point{{3, 4}}, Home: nil}` -/
+theorem trip_hasType : HasType (tripT tA tT tH tLat tLon)
+    (.struct [.struct [.float (3/2), .float 2], .slice [.struct [.float 3, .float 4]], .nilPtr]) := by
+  simp [tripT, geoT, geoU, HasType, HasTypeFields, hA, hT, hH, hLat, hLon, basicHasType, floatKinds]
+
+/-- `infer_sound_table` applied: the value marshals to
+    `{"at":{"lat":1.5,"lon":2},"track":[{"lat":3,"lon":4}],"home":null}`, which the inferred schema accepts -/
+example (id : NodeId) (st' : Store) (h : forType geoOpts 3 (tripT tA tT tH tLat tLon) geoStore = .ok (some id, st')) :
+    Spec.valid (specEnvNoRefs st') 5 id
+      (.obj [("at", .obj [("lat", .num (3/2)), ("lon", .num 2)]), ("track", .arr [.obj [("lat", .num 3), ("lon", .num 4)]]),
+             ("home", .null)]) = some true := by
+  have := infer_sound_table geoOpts 3 _ geoStore id st' (fun _ _ => false) rfl
+    (trip_inDomainN tA tT tH tLat tLon hA hT hH hLat hLon) (trip_entriesAcceptTree tA tT tH tLat tLon hLat hLon) h _
+    (trip_hasType tA tT tH tLat tLon hA hT hH hLat hLon) 5 (by simp [tripT, geoT, geoU, depth, depthFields])
+  simpa [tripT, geoT, geoU, encode, encodeFields, hA, hT, hH, hLat, hLon, fieldSkipped] using this
+end WitnessesT
+
+/-- … evaluated, on `Point` and `*Point` alone (no tag is read): the clone accepts `{"lat":1.5,"lon":2}`, rejects
+    `{"lat":1.5}` (required) and `{"lat":"x","lon":2}` (the subschema of `lat`), and accepts `null` through the pointer only -/
+example : (match forType geoOpts 2 (.named "Point" (.basic "Bool")) geoStore,
+                 forType geoOpts 2 (.ptr (.named "Point" (.basic "Bool"))) geoStore with
+    | .ok (some id, st'), .ok (some idp, stp) =>
+      [Spec.valid (specEnvNoRefs st') 2 id (.obj [("lat", .num (3/2)), ("lon", .num 2)]),
+       Spec.valid (specEnvNoRefs st') 2 id (.obj [("lat", .num (3/2))]),
+       Spec.valid (specEnvNoRefs st') 2 id (.obj [("lat", .str "x"), ("lon", .num 2)]),
+       Spec.valid (specEnvNoRefs st') 2 id .null,
+       Spec.valid (specEnvNoRefs stp) 2 idp .null,
+       Spec.valid (specEnvNoRefs stp) 2 idp (.obj [("lat", .num (3/2)), ("lon", .num 2)])]
+    | _, _ => []) = [some true, some false, some false, some false, some true, some true] := by decide +kernel
+
+/-- the hypothesis on the entry is needed: with `"lat": {"type":"integer"}` in the entry (`TypeSchemas[Point]` written for
+    another `Point`), the inferred schema rejects the encoding `{"lat":1.5,"lon":2}` of `Point{1.5, 2}` -/
+example : (match forType geoOpts 2 (.named "Point" (.basic "Bool"))
+      #[{ type := "integer" }, { type := "number" }, geoNode 0 1] with
+    | .ok (some id, st') => Spec.valid (specEnvNoRefs st') 2 id (.obj [("lat", .num (3/2)), ("lon", .num 2)])
+    | _ => none) = some false := by decide +kernel
+
+/-- … and so is the clause on `null` for pointers, beyond the type keyword at the root (D17): the entry
+    `{"type":"object","allOf":[{"type":"object"}]}` has a type keyword, but with `null` added to the types of its root
+    it still rejects `null` — the `allOf` branch does — so the schema inferred for `*Point` rejects the nil pointer -/
+example : (match forType { schemas := [("Point", 1)] } 2 (.ptr (.named "Point" (.basic "Bool")))
+      #[{ type := "object" }, { type := "object", allOf := some [0] }] with
+    | .ok (some id, st') => [Spec.valid (specEnvNoRefs st') 2 id .null, Spec.valid (specEnvNoRefs st') 2 id (.obj [])]
+    | _ => []) = [some false, some true] := by decide +kernel
+
 /-- `NamedOk` is needed, (1): a name that occurs twice along ONE path — how a recursive declaration looks in the type
     language — makes `forType` fail (the cycle check, `C16.recursive_*_errors`), although the erased type has a schema -/
 example : NamedOk {} [] [] (.named "L" (.slice (.named "L" (.slice (.basic "Int"))))) = false ∧
